@@ -3,6 +3,7 @@ package yqlib
 import (
 	"container/list"
 	"fmt"
+	"time"
 )
 
 type compareTypePref struct {
@@ -74,7 +75,8 @@ func compareScalars(context Context, prefs compareTypePref, lhs *CandidateNode, 
 
 	isDateTime := lhs.Tag == "!!timestamp"
 	// if the lhs is a string, it might be a timestamp in a custom format.
-	if lhsTag == "!!str" {
+	// (as sort does: under the default layout a string is a string, only !!timestamp values are instants)
+	if lhsTag == "!!str" && context.GetDateTimeLayout() != time.RFC3339 {
 		_, err := parseDateTime(context.GetDateTimeLayout(), lhs.Value)
 		isDateTime = err == nil
 	}
